@@ -14,6 +14,9 @@ pub struct Template {
     /// resource tags; two templates conflict if they share a tag
     pub tags: &'static [&'static str],
     pub min_spec: SpecId,
+    /// first spec in which the template is no longer expressible (e.g. a zero gas price under a
+    /// non-zero base fee)
+    pub until_spec: Option<SpecId>,
     /// nonce offset relative to "pre-state nonce + earlier txs of this sender in the block"
     pub nonce_skew: i64,
     /// accounts other than the sender whose nonce this transaction bumps when valid (EIP-7702
@@ -37,6 +40,7 @@ pub fn tpl(
         sender,
         tags,
         min_spec: SpecId::FRONTIER,
+        until_spec: None,
         nonce_skew: 0,
         bumps: vec![],
         stale_nonce: false,
@@ -52,12 +56,16 @@ pub fn tpl_auth(
     bumps: Vec<Address>,
     build: impl Fn(u64, &dyn Fn(Address) -> u64) -> TxEnv + Send + Sync + 'static,
 ) -> Template {
-    Template { label, sender, tags, min_spec: SpecId::PRAGUE, nonce_skew: 0, bumps, stale_nonce: false, build: Arc::new(build) }
+    Template { label, sender, tags, min_spec: SpecId::PRAGUE, until_spec: None, nonce_skew: 0, bumps, stale_nonce: false, build: Arc::new(build) }
 }
 
 impl Template {
     pub fn from_spec(mut self, s: SpecId) -> Self {
         self.min_spec = s;
+        self
+    }
+    pub fn until_spec(mut self, s: SpecId) -> Self {
+        self.until_spec = Some(s);
         self
     }
     pub fn skew(mut self, k: i64) -> Self {
@@ -116,7 +124,7 @@ pub fn build_case(
     let mut txs = Vec::new();
     for &t in seq {
         let tp = &templates[t];
-        if !spec.is_enabled_in(tp.min_spec) {
+        if !spec.is_enabled_in(tp.min_spec) || tp.until_spec.is_some_and(|u| spec.is_enabled_in(u)) {
             return None;
         }
         let base = db.accounts.get(&tp.sender).map_or(0, |a| a.info.nonce);
